@@ -28,7 +28,7 @@ Theorem C03_core_delivered_events_rebuild_copy :
   (forall u v u', norm u v = Some u' -> app u' v = app u v) ->
   forall t ops c,
   let s := fst (Core.exec val upd app norm d t ops) in let outs := snd (Core.exec val upd app norm d t ops) in
-  Core.disc (Core.conns val upd s c) = false -> Core.no_underflow val upd app c outs ->
+  Core.disc (Core.conns val upd s c) = false -> Core.no_underflow val upd app c outs -> Core.no_bare_resp val upd app c outs ->
   0 < Core.lcnt val (Core.client val upd app c outs) ->
   exists i, Core.cur (Core.conns val upd s c) = Some i /\ Conv.sent val upd (Conv.subs val upd (Core.cv val upd s) i) = true /\
             Core.lcopy val (Core.client val upd app c outs) = Some (Conv.sval val upd (Conv.subs val upd (Core.cv val upd s) i)).
